@@ -9,7 +9,7 @@ def decode(string):
   return string
 
 def validate_encoded(string):
-  if not re.match(r"^[!-~]+$", string):
+  if not re.match(r"^[!-~]+\Z", string):
     raise gfapy.FormatError(
       "{} is not a valid custom record type\n".format(repr(string)) +
       "(it contains spaces and/or non-printable characters)")
